@@ -24,6 +24,7 @@ import (
 	"fmt"
 	"io"
 	"log/slog"
+	"os"
 	"slices"
 	"sort"
 	"strconv"
@@ -269,6 +270,7 @@ type fa struct {
 	typ, msg       string
 	apath          string // path of the against-file location (measurement only; not part of the key)
 	aimport        bool   // the against-file is an import in the against image
+	fileLevel      bool   // the file location has an empty source path (measurement only)
 }
 
 // anyPath reports whether pred holds for the annotation's file path or its against-file path
@@ -455,7 +457,13 @@ func encLoc(l descriptor.FileLocation, idx map[string]int) string {
 // measure runs every live rule of the type alone, without suppression, at the check.Client level
 // (the same default check.Client and options bufcheck uses), and records the results both as
 // protocol fields for the model and in final FileAnnotation form for the oracle.
-func (im *image) measure(lint bool) {
+func (im *image) measure(lint bool) { im.measureWith(lint, nil, false, nil) }
+
+// measureWith: extra = further check options (the lint options of a buf.yaml section); batch = one
+// request per version with all rule ids at once instead of one request per rule (the union is
+// the same: rules are independent — sectionCheck's self-check re-establishes that on every
+// run); skip = rule ids left out.
+func (im *image) measureWith(lint bool, extra map[string]any, batch bool, skip map[string]bool) {
 	im.proto = map[string]string{}
 	im.single = map[string]map[string][]fa{}
 	fds := fileDescriptors(im.img)
@@ -466,22 +474,47 @@ func (im *image) measure(lint bool) {
 		var opts option.Options = option.EmptyOptions
 		ids := v.breakingLive
 		if lint {
-			opts = must(option.NewOptions(map[string]any{"comment_excludes": []string{"buf:lint:ignore"}}))
+			m := map[string]any{"comment_excludes": []string{"buf:lint:ignore"}}
+			for k, x := range extra {
+				m[k] = x
+			}
+			opts = must(option.NewOptions(m))
 			ids = v.lintLive
+		}
+		if len(skip) > 0 {
+			var kept []string
+			for _, id := range ids {
+				if !skip[id] {
+					kept = append(kept, id)
+				}
+			}
+			ids = kept
 		}
 		var annots []string
 		single := map[string][]fa{}
-		for _, id := range ids {
-			reqOpts := []check.RequestOption{check.WithRuleIDs(id), check.WithOptions(opts)}
+		groups := [][]string{ids}
+		if !batch {
+			groups = nil
+			for _, id := range ids {
+				groups = append(groups, []string{id})
+			}
+		}
+		for _, group := range groups {
+			if len(group) == 0 {
+				continue
+			}
+			reqOpts := []check.RequestOption{check.WithRuleIDs(group...), check.WithOptions(opts)}
 			if !lint {
 				reqOpts = append(reqOpts, check.WithAgainstFileDescriptors(afds))
 			}
 			resp := must(v.specClient.Check(ctx, must(check.NewRequest(fds, reqOpts...))))
 			for _, a := range resp.Annotations() {
+				id := a.RuleID()
 				annots = append(annots, strings.Join([]string{a.RuleID(), encLoc(a.FileLocation(), idx), encLoc(a.AgainstFileLocation(), aidx), hx.Enc(a.Message())}, ":"))
 				f := fa{path: "\x00nil", typ: a.RuleID(), msg: a.Message()}
 				if l := a.FileLocation(); l != nil {
 					f = fa{path: l.FileDescriptor().ProtoreflectFileDescriptor().Path(), sl: l.StartLine() + 1, sc: l.StartColumn() + 1, el: l.EndLine() + 1, ec: l.EndColumn() + 1, typ: a.RuleID(), msg: a.Message()}
+					f.fileLevel = len(l.SourcePath()) == 0
 				}
 				if l := a.AgainstFileLocation(); l != nil {
 					f.apath = l.FileDescriptor().ProtoreflectFileDescriptor().Path()
@@ -862,21 +895,22 @@ func relevantIDs(im *image, v *version) []string {
 	return out
 }
 
-// checkOracle: laws between implementation runs for one configuration on one image.
-func checkOracle(rr *hx.Rand, c *cfgSpec, im *image, got []fa, class string) {
-	if class != "" {
-		// unknown ids must be rejected by Lint/Breaking too — covered by selectionOracle on the
-		// same configuration
-		ids, cl := configured(c)
-		selectionOracle(c, ids, cl)
-		return
+// exactnessOracle: the report equals the union over the selected rules of what each reports alone,
+// minus exactly the documented suppressions.  strict = a comment ignore MUST suppress (the
+// image's directives are line-exact); class != "" files every disagreement under that class.
+func exactnessOracle(c *cfgSpec, im *image, got []fa, ids []string, strict bool, class string, extra map[string]any) map[string]fa {
+	cls := func(dflt string) string {
+		if class != "" {
+			return class
+		}
+		return dflt
 	}
-	ids, cl := configured(c)
-	if cl != "" {
-		fail("C06-check-accepts-rejected-config", "Lint/Breaking succeeded on a configuration ConfiguredRules rejects with "+cl, c, nil)
-		return
+	with := func(m map[string]any) map[string]any {
+		for k, v := range extra {
+			m[k] = v
+		}
+		return m
 	}
-	selectionOracle(c, ids, cl)
 	gotSet := faSet(got)
 	single := im.single[c.ver.name]
 	// (1) union: everything reported is reported by a selected rule run alone
@@ -889,16 +923,16 @@ func checkOracle(rr *hx.Rand, c *cfgSpec, im *image, got []fa, class string) {
 	}
 	for k, a := range gotSet {
 		if !sel[a.typ] {
-			fail("C06-report-not-union", "annotation of rule "+a.typ+" reported although the rule is not selected", c, map[string]any{"annotation": k})
+			fail(cls("C06-report-not-union"), "annotation of rule "+a.typ+" reported although the rule is not selected", c, with(map[string]any{"annotation": k}))
 		} else if _, ok := union[k]; !ok {
-			fail("C06-report-not-union", "annotation is not reported by rule "+a.typ+" run alone", c, map[string]any{"annotation": k})
+			fail(cls("C06-report-not-union"), "annotation is not reported by rule "+a.typ+" run alone", c, with(map[string]any{"annotation": k}))
 		}
 	}
 	// (2) imports never reported (lint: always; breaking: when exclude-imports is requested)
 	if c.lint || c.exi {
 		for k, a := range gotSet {
 			if im.importPaths[a.path] {
-				fail("C06-import-reported", "annotation reported on import-only file "+a.path, c, map[string]any{"annotation": k})
+				fail(cls("C06-import-reported"), "annotation reported on import-only file "+a.path, c, with(map[string]any{"annotation": k}))
 			}
 		}
 	}
@@ -953,12 +987,34 @@ func checkOracle(rr *hx.Rand, c *cfgSpec, im *image, got []fa, class string) {
 		}
 		switch {
 		case reported && why != "":
-			fail("C06-suppression-not-applied", "annotation survives although it is in the scope of "+why, c, map[string]any{"annotation": k})
+			fail(cls("C06-suppression-not-applied"), "annotation survives although it is in the scope of "+why, c, with(map[string]any{"annotation": k}))
+		case reported && strict && commentScope:
+			fail(cls("C06-comment-ignore-not-applied"), "annotation survives although comment ignores are allowed and a buf:lint:ignore comment naming its rule sits on the element", c, with(map[string]any{"annotation": k}))
 		case !reported && why == "" && !commentScope:
 			what := "annotation of a selected rule is missing although no suppression covers it"
-			fail("C06-suppressed-out-of-scope", what, c, map[string]any{"annotation": k, "directives": fmtDirectives(im.directives, a.path)})
+			fail(cls("C06-suppressed-out-of-scope"), what, c, with(map[string]any{"annotation": k, "directives": fmtDirectives(im.directives, a.path)}))
 		}
 	}
+	return union
+}
+
+// checkOracle: laws between implementation runs for one configuration on one image.
+func checkOracle(rr *hx.Rand, c *cfgSpec, im *image, got []fa, class string) {
+	if class != "" {
+		// unknown ids must be rejected by Lint/Breaking too — covered by selectionOracle on the
+		// same configuration
+		ids, cl := configured(c)
+		selectionOracle(c, ids, cl)
+		return
+	}
+	ids, cl := configured(c)
+	if cl != "" {
+		fail("C06-check-accepts-rejected-config", "Lint/Breaking succeeded on a configuration ConfiguredRules rejects with "+cl, c, nil)
+		return
+	}
+	selectionOracle(c, ids, cl)
+	gotSet := faSet(got)
+	union := exactnessOracle(c, im, got, ids, false, "", nil)
 	// (4) monotonicity and scoping of ADDING one suppression, between two real runs
 	d := c.clone()
 	kind := rr.Intn(4)
@@ -1161,8 +1217,25 @@ func main() {
 	defer run.Finish()
 	setup()
 	r := hx.NewRand(run.Seed)
+	// C06_SECTIONS (development aid): comma-separated subset of sel,lint,breaking,place,yaml
+	on := func(name string) bool {
+		s := os.Getenv("C06_SECTIONS")
+		return s == "" || slices.Contains(strings.Split(s, ","), name)
+	}
 	nestingOracle()
-	sectionSelection(r.Fork(1))
-	sectionCheck(r.Fork(2), true)
-	sectionCheck(r.Fork(3), false)
+	if on("sel") {
+		sectionSelection(r.Fork(1))
+	}
+	if on("lint") {
+		sectionCheck(r.Fork(2), true)
+	}
+	if on("breaking") {
+		sectionCheck(r.Fork(3), false)
+	}
+	if on("place") {
+		sectionPlacement(r.Fork(4))
+	}
+	if on("yaml") {
+		sectionYaml(r.Fork(5))
+	}
 }
